@@ -47,6 +47,13 @@ pub struct Case {
     /// and the shell takes the terminal back after every foreground one
     #[serde(default)]
     pub job_control: bool,
+    /// the script starts with `ulimit -n 10`: no descriptor for the shell's
+    /// own use (>= 10) can be allocated any more, so whatever needs one fails,
+    /// again and again - saving a redirected descriptor, the terminal of a
+    /// job-control shell - and must leave nothing behind. Checked with the
+    /// tolerant oracle (set by the driver, not by the generator).
+    #[serde(default)]
+    pub low_limit: bool,
 }
 
 fn mutator(rng: &mut Rng, n: &mut u32) -> String {
@@ -165,7 +172,7 @@ pub fn generate(rng: &mut Rng, tier: Tier) -> Case {
             }
         }
     }
-    Case { tests, job_control }
+    Case { tests, job_control, low_limit: false }
 }
 
 fn join(m: &[String]) -> String {
@@ -226,6 +233,14 @@ fn render_test(t: &Test, out: &mut String) {
 
 pub fn render(c: &Case) -> String {
     let mut s = String::new();
+    if c.low_limit {
+        s.push_str("ulimit -n 10\n");
+        if c.job_control {
+            // (job control is switched on only now, so the shell cannot keep a
+            // descriptor for the terminal: it tries again for every foreground job)
+            s.push_str("set -m\n");
+        }
+    }
     for t in &c.tests {
         render_test(t, &mut s);
     }
@@ -318,7 +333,28 @@ fn key_class(d: &str) -> &str {
 
 /// `tolerant`: a process was killed from outside (crash injection), so
 /// snapshots may be missing; every snapshot that exists is still checked.
-fn check_test(t: &Test, snaps: &BTreeMap<String, SnapMap>, tolerant: bool, job_control: bool) -> Option<Viol> {
+/// `lazy_tty`: the shell controls jobs and an earlier descriptor allocation
+/// failed, so its own close-on-exec descriptor for the terminal (>= 10) may be
+/// opened only now, by the parent, for this subshell.
+fn check_test(t: &Test, snaps: &BTreeMap<String, SnapMap>, tolerant: bool, job_control: bool, lazy_tty: bool) -> Option<Viol> {
+    let own_tty = |d: Vec<String>| -> Vec<String> {
+        if !lazy_tty {
+            return d;
+        }
+        let mut seen = false;
+        d.into_iter()
+            .filter(|l| {
+                let is = !seen
+                    && l.strip_prefix("fd:").is_some_and(|r| {
+                        let mut it = r.splitn(2, ": (absent) -> ");
+                        let n: i32 = it.next().and_then(|n| n.parse().ok()).unwrap_or(-1);
+                        n >= 10 && it.next().is_some_and(|v| v.ends_with(",1"))
+                    });
+                seen |= is;
+                !is
+            })
+            .collect()
+    };
     let k = t.id;
     let get = |l: &str| snaps.get(&format!("{l}{k}"));
     let (Some(b), Some(c)) = (get("B"), get("C")) else {
@@ -345,7 +381,7 @@ fn check_test(t: &Test, snaps: &BTreeMap<String, SnapMap>, tolerant: bool, job_c
         }
     }
     for (name, p) in parents {
-        let d = diff(b, p, &leak_skip);
+        let d = own_tty(diff(b, p, &leak_skip));
         if !d.is_empty() {
             return Some((
                 "leak".into(),
@@ -411,7 +447,7 @@ fn check_test(t: &Test, snaps: &BTreeMap<String, SnapMap>, tolerant: bool, job_c
         // parent (caught signals are blocked outside select); in the child the
         // disposition is default and the mask entry goes away
         let mask_skip = |key: &str| key == "mask";
-        let d = diff(&want, e, &|key| skip(key) || mask_skip(key));
+        let d = own_tty(diff(&want, e, &|key| skip(key) || mask_skip(key)));
         if !d.is_empty() {
             return Some((
                 "entry".into(),
@@ -451,6 +487,13 @@ fn check_run(c: &Case, obs: &Observed) -> Option<Viol> {
 }
 
 fn check_run_opt(c: &Case, obs: &Observed, tolerant: bool) -> Option<Viol> {
+    check_run_mode(c, obs, tolerant, false)
+}
+
+/// `main_may_exit`: the fault (a failed descriptor allocation) can make the
+/// main shell itself give up early (a redirection error on a special built-in),
+/// so even its own snapshots may be missing.
+fn check_run_mode(c: &Case, obs: &Observed, tolerant: bool, main_may_exit: bool) -> Option<Viol> {
     if let Some(v) = check_liveness(obs) {
         return Some(v);
     }
@@ -496,7 +539,7 @@ fn check_run_opt(c: &Case, obs: &Observed, tolerant: bool) -> Option<Viol> {
     for t in all {
         // (a subshell of a job-control shell does not control jobs itself)
         let jc = c.job_control && c.tests.iter().any(|top| top.id == t.id);
-        if let Some(v) = check_test(t, &snaps, tolerant, jc) {
+        if let Some(v) = check_test(t, &snaps, tolerant, jc, main_may_exit && c.job_control) {
             return Some(v);
         }
         // (only at the top level: what `trap` lists in a subshell of a subshell
@@ -518,6 +561,9 @@ fn check_run_opt(c: &Case, obs: &Observed, tolerant: bool) -> Option<Viol> {
                 ));
             }
         }
+    }
+    if tolerant && main_may_exit {
+        return None;
     }
     if tolerant {
         // the main shell is never killed: its own snapshots exist even if
@@ -554,7 +600,7 @@ fn spec_of(c: &Case) -> ScriptSpec {
     ScriptSpec {
         script: render(c),
         dash_c: true,
-        options: if c.job_control { vec!["-m".into()] } else { Vec::new() },
+        options: if c.job_control && !c.low_limit { vec!["-m".into()] } else { Vec::new() },
         files: vec![
             ("/work/e1".into(), b"e1-line1\ne1-line2\n".to_vec(), 0o644),
             ("/work/sub1/deep/keep".into(), b"".to_vec(), 0o644),
@@ -652,9 +698,13 @@ impl Prop for C08 {
             Tier::Quick => 8,
             Tier::Thorough => 16,
         };
+        let mut base_allocs = 0u32;
         for k in 0..schedules {
             let cfg = draw_config(&mut rng, k);
             let (obs, v) = run_one(&case, &cfg, Decider::record(Rng::stream(seed, 800 + k as u64, index)));
+            if k == 0 {
+                base_allocs = obs.alloc_count as u32;
+            }
             stats.note_run(case_hash, &obs.outcome, obs.faults_fired);
             stats.add_counters(&obs.counters);
             stats.digest(index, obs_digest(&obs));
@@ -692,11 +742,64 @@ impl Prop for C08 {
                 return Some(failure(&case, &cfg, &obs, v));
             }
         }
+        // descriptor exhaustion: one seeded descriptor allocation (of the parent
+        // or of a child) fails with EMFILE. The subshell may then not start or
+        // not get far, but the parent's state - its descriptor table above all -
+        // is still what it was, and every snapshot that was taken obeys the rules
+        let emfile_runs = match tier {
+            Tier::Quick => 2,
+            Tier::Thorough => 5,
+        };
+        if base_allocs > 0 {
+            for j in 0..emfile_runs {
+                let mut cfg = draw_config(&mut rng, j);
+                cfg.fail_alloc_at = Some(1 + rng.below(base_allocs));
+                let (obs, _) = run_one(&case, &cfg, Decider::record(Rng::stream(seed, 870 + j as u64, index)));
+                stats.note_run(case_hash ^ 0xE3F1, &obs.outcome, obs.faults_fired);
+                stats.add_counters(&obs.counters);
+                stats.digest(index, obs_digest(&obs));
+                if let Some(mut v) = check_run_mode(&case, &obs, true, true) {
+                    stats.count("violating_runs", 1);
+                    v.1 = format!("emfile:{}", v.1);
+                    return Some(failure(&case, &cfg, &obs, v));
+                }
+            }
+        }
+        // a descriptor limit of 10: every allocation of an internal descriptor fails
+        {
+            let mut low = case.clone();
+            low.low_limit = true;
+            let cfg = draw_config(&mut rng, 1);
+            let (obs, _) = run_one(&low, &cfg, Decider::record(Rng::stream(seed, 860, index)));
+            stats.note_run(case_hash ^ 0x10F1, &obs.outcome, obs.faults_fired);
+            stats.add_counters(&obs.counters);
+            stats.digest(index, obs_digest(&obs));
+            stats.count("runs_with_descriptor_limit_10", 1);
+            if let Some(mut v) = check_run_mode(&low, &obs, true, true) {
+                stats.count("violating_runs", 1);
+                v.1 = format!("limit10:{}", v.1);
+                return Some(failure(&low, &cfg, &obs, v));
+            }
+        }
         None
     }
 
     fn rerun(&self, case: &Value, cfg: &SimConfig, decisions: &[Decision]) -> Option<Failure> {
         let c: Case = serde_json::from_value(case.clone()).ok()?;
+        if c.low_limit {
+            let (obs, _) = run_one(&c, cfg, Decider::replay(decisions));
+            return check_run_mode(&c, &obs, true, true).map(|mut v| {
+                v.1 = format!("limit10:{}", v.1);
+                failure(&c, cfg, &obs, v)
+            });
+        }
+        if cfg.fail_alloc_at.is_some() {
+            let (obs, _) = run_one(&c, cfg, Decider::replay(decisions));
+            return check_run_mode(&c, &obs, true, true).map(|mut v| {
+                v.1 = format!("emfile:{}", v.1);
+                failure(&c, cfg, &obs, v)
+            });
+        }
         if cfg.crash_permille > 0 {
             let obs = run_crash(&c, cfg, Decider::replay(decisions));
             return check_run_opt(&c, &obs, true).map(|mut v| {
